@@ -424,6 +424,38 @@ def _bind_target(target, value):
     return None
 
 
+def _without_continue(stmts):
+    """The loop body with guard-clause `continue`s turned into if/else nesting (`if c: continue; rest` -> `if c: pass else: rest`);
+    None if a continue sits anywhere else (inside a nested loop, try, with ...)."""
+    out = []
+    for i, s in enumerate(stmts):
+        if isinstance(s, ast.Continue):
+            return out or [ast.copy_location(ast.Pass(), s)]
+        if isinstance(s, ast.If) and any(isinstance(x, ast.Continue) for x in ast.walk(s)):
+            rest = list(stmts[i + 1:])
+            ends_b = bool(s.body) and isinstance(s.body[-1], ast.Continue)
+            ends_o = bool(s.orelse) and isinstance(s.orelse[-1], ast.Continue)
+            if ends_b and not any(isinstance(x, ast.Continue) for y in s.body[:-1] + list(s.orelse) for x in ast.walk(y)):
+                then = list(s.body[:-1]) or [ast.copy_location(ast.Pass(), s)]
+                other = _without_continue(list(s.orelse) + rest)
+                if other is None:
+                    return None
+                out.append(ast.copy_location(ast.If(test=s.test, body=then, orelse=other), s))
+                return out
+            if ends_o and not any(isinstance(x, ast.Continue) for y in list(s.body) + s.orelse[:-1] for x in ast.walk(y)):
+                then = _without_continue(list(s.body) + rest)
+                if then is None:
+                    return None
+                out.append(ast.copy_location(ast.If(test=s.test, body=then or [ast.copy_location(ast.Pass(), s)],
+                                                    orelse=list(s.orelse[:-1])), s))
+                return out
+            return None
+        if any(isinstance(x, ast.Continue) for x in ast.walk(s)):
+            return None
+        out.append(s)
+    return out
+
+
 class _Unroll(ast.NodeTransformer):
     def __init__(self, env):
         self.env = env
@@ -442,8 +474,12 @@ class _Unroll(ast.NodeTransformer):
     def visit_For(self, node):
         self.generic_visit(node)
         seq = _literal_seq(node.iter, self.env)
-        if seq is None or node.orelse or any(isinstance(x, (ast.Break, ast.Continue)) for x in ast.walk(node)):
+        if seq is None or node.orelse:
             return node
+        body = _without_continue(node.body)
+        if body is None or any(isinstance(x, (ast.Break, ast.Continue)) for s_ in body for x in ast.walk(s_)):
+            return node
+        node = ast.copy_location(ast.For(target=node.target, iter=node.iter, body=body, orelse=[]), node)
         out = []
         for elt in seq:
             b = _bind_target(node.target, elt)
